@@ -394,7 +394,7 @@ func runParts(p PartsScript, v *vt.V) {
 var propParts = &vt.Prop[PartsScript]{
 	ID:   "C17",
 	Name: "RefValidParts",
-	Rule: "valid host (dotted, host:port, IPv4, bracketed IPv6, upper case) x valid repository (incl. exact lengths 250-255) x optional valid tag (incl. lengths 127,128) x optional valid digest (sha256/384/512); oracle = Parse(String(parts)) == parts for Parse and ParseRelative; every case is non-trivial; distinct = printed string",
+	Rule: "valid host (dotted, host:port, IPv4, bracketed IPv6, upper case) x valid repository (incl. exact lengths 250-255) x optional valid tag (incl. lengths 127,128) x optional valid digest (sha256/384/512), one case in eight with every part near its limit at once (hosts of 80-250 bytes); oracle = Parse(String(parts)) == parts for Parse and ParseRelative; every case is non-trivial; distinct = printed string",
 	Gen: func(t *rapid.T) PartsScript {
 		p := PartsScript{Host: gen.Host().Draw(t, "host")}
 		if rapid.IntRange(0, 5).Draw(t, "longRepo") == 0 {
@@ -407,6 +407,15 @@ var propParts = &vt.Prop[PartsScript]{
 		}
 		if rapid.Bool().Draw(t, "hasDigest") {
 			p.Digest = gen.ValidDigest().Draw(t, "digest")
+		}
+		if rapid.IntRange(0, 7).Draw(t, "everythingLong") == 0 {
+			// every part long at once: no part is over its own limit, and there is no limit on the whole
+			n := rapid.IntRange(8, 24).Draw(t, "hostLabels")
+			p.Host = strings.TrimSuffix(strings.Repeat("registry9.", n), ".") + rapid.SampledFrom([]string{"", ":5000", ":65535"}).Draw(t, "port")
+			p.Repo = gen.LongRepo(rapid.IntRange(250, 255).Draw(t, "len"))
+			p.Tag = gen.TagOfLen(rapid.SampledFrom([]int{127, 128}).Draw(t, "tagLen"), 3)
+			p.Digest = rapid.SampledFrom([]string{"sha256:", "sha384:", "sha512:"}).Draw(t, "alg")
+			p.Digest += strings.Repeat("0123456789abcdef", map[string]int{"sha256:": 4, "sha384:": 6, "sha512:": 8}[p.Digest])
 		}
 		return p
 	},
